@@ -217,14 +217,18 @@ def _install_id():
         # (p:cTn of an animation, a:cNvPr inside a locked canvas ...) - what python-pptx's own allocator looks at (//@id)
         ids = etree.XPath("//*[not(ancestor-or-self::p:oleObj)]/@id", namespaces={"p": "http://schemas.openxmlformats.org/presentationml/2006/main"})(root)
         # (an id is a NUMBER: '003' and '3' are the same id, both valid lexical forms of xsd:unsignedInt)
-        return {str(int(i)) for i in ids if i.isdigit()} | {str(int(i)) if i.isdigit() else i for i in etree.XPath("//p:cNvPr[not(ancestor::p:oleObj)]/@id", namespaces={"p": "http://schemas.openxmlformats.org/presentationml/2006/main"})(root)}
+        return {str(int(i)) for i in ids if i.isdecimal()} | {str(int(i)) if i.isdecimal() else i for i in etree.XPath("//p:cNvPr[not(ancestor::p:oleObj)]/@id", namespaces={"p": "http://schemas.openxmlformats.org/presentationml/2006/main"})(root)}
 
     def wrap_shape_id(cls, label):
         orig = cls.__dict__["_next_shape_id"].fget
 
         def _next_shape_id(self):
             turbo = getattr(self, "_cached_max_shape_id", None) is not None
-            res = orig(self)
+            try:
+                res = orig(self)
+            except Exception as e:  # noqa  ("on decks with arbitrary existing ids": an allocator that raises assigns no id at all)
+                SINK.violation("C06", "shape-id-allocation-raises:%s" % type(e).__name__, "%s raised %s: %s" % (label, type(e).__name__, str(e)[:100]))
+                raise
             try:
                 sp = self._spTree if hasattr(self, "_spTree") else self
                 used = ids_in_tree(sp)
@@ -249,7 +253,7 @@ def _install_id():
     def _next_id(self):
         res = orig_sid(self)
         try:
-            used = {str(int(s.get("id"))) if (s.get("id") or "").isdigit() else s.get("id") for s in self}
+            used = {str(int(s.get("id"))) if (s.get("id") or "").isdecimal() else s.get("id") for s in self}
             SINK.count("M-ID:CT_SlideIdList._next_id")
             if str(res) in used or not (256 <= res <= 2147483647):
                 SINK.violation("C06", "slide-id-not-fresh-or-out-of-range", "_next_id returned %r with ids %s" % (res, sorted(used)[:8]))
